@@ -21,7 +21,9 @@
 #else
 #define PACKAGE_STRING "assemblyline -- NO VERSION"
 #endif
+#include <errno.h>
 #include <getopt.h>
+#include <limits.h>
 #include <stdbool.h>
 #include <stdio.h>
 #include <stdlib.h>
@@ -443,6 +445,21 @@ int main(int argc, char *argv[]) {
   return status;
 }
 
+/**
+ * reads a decimal integer > 1 that fits an int from @param arg into @param out;
+ * anything else (no digits, trailing characters, out of range) is refused
+ */
+static int parse_size_arg(const char *arg, int *out) {
+  char *end = NULL;
+  errno = 0;
+  long value = strtol(arg, &end, 10); // NOLINT, decimal
+  if (errno != 0 || end == arg || *end != '\0' || value <= 1 ||
+      value > INT_MAX)
+    return 0;
+  *out = (int)value;
+  return 1;
+}
+
 static void parse_opt(assemblyline_t al, int argc, char **argv,
                       struct parsed_ops *r) {
   /* These options set a flag. */
@@ -518,13 +535,13 @@ static void parse_opt(assemblyline_t al, int argc, char **argv,
       asm_set_all(al, SMART);
       break;
     case 'c':
-      if (optarg == NULL || (temp = atoi(optarg)) <= 1)
+      if (optarg == NULL || !parse_size_arg(optarg, &temp))
         err_print_usage("Error: [-c CHUNK_SIZE>1] expects an integer\n");
       asm_set_chunk_size(al, temp);
       break;
 
     case 'b':
-      if (optarg == NULL || (temp = atoi(optarg)) <= 1)
+      if (optarg == NULL || !parse_size_arg(optarg, &temp))
         err_print_usage("Error: [-b CHUNK_BOUNDARY>1] expects an integer\n");
       r->chunk_boundary = temp;
       break;
